@@ -83,6 +83,11 @@ pub enum Event {
     Deliver { msg: u16 },
     EnumFlips { msg: u16 },
     EnumTruncs { msg: u16 },
+    /// every single-byte deletion and every single-byte insertion (of `byte`) of a message
+    EnumEdits { msg: u16, byte: u8 },
+    /// two frames back to back, cut at every point after the first: a torn tail must not change
+    /// what the first frame decodes to
+    CutSweep { a: u16, b: u16 },
     Stream { msgs: Vec<u16>, suffix: Vec<u8>, list: bool },
     SuffixSweep { msg: u16, fill: u8 },
     Noise { data: Vec<u8>, form: Form },
@@ -112,6 +117,8 @@ impl Event {
             Event::Deliver { .. } => "Deliver",
             Event::EnumFlips { .. } => "EnumFlips",
             Event::EnumTruncs { .. } => "EnumTruncs",
+            Event::EnumEdits { .. } => "EnumEdits",
+            Event::CutSweep { .. } => "CutSweep",
             Event::Stream { .. } => "Stream",
             Event::SuffixSweep { .. } => "SuffixSweep",
             Event::Noise { .. } => "Noise",
@@ -617,6 +624,49 @@ impl World {
                     }
                 }
             }
+            Event::EnumEdits { msg, byte } => {
+                if let Some(m) = self.msg(*msg) {
+                    let c = self.msgs[m].clone();
+                    let decs = self.decs.clone();
+                    self.cx.stat("enum:edit-neighbourhoods");
+                    for i in 0..c.data.len() {
+                        let mut d = c.data.clone();
+                        d.remove(i);
+                        self.cx.stat("fault:enum:DeleteByte");
+                        self.light_deliver(&d, c.form, "enum-delete", &decs);
+                    }
+                    for i in 0..=c.data.len() {
+                        let mut d = c.data.clone();
+                        d.insert(i, *byte);
+                        self.cx.stat("fault:enum:InsertByte");
+                        // an insertion after the record is a suffix, which C13 allows: judge it fully
+                        if i == c.data.len() && c.form == Form::Binary {
+                            self.deliver_data(&d, c.form, "enum-insert");
+                        } else {
+                            self.light_deliver(&d, c.form, "enum-insert", &decs);
+                        }
+                    }
+                }
+            }
+            Event::CutSweep { a, b } => {
+                if let (Some(ia), Some(ib)) = (self.msg(*a), self.msg(*b)) {
+                    let (ma, mb) = (self.msgs[ia].clone(), self.msgs[ib].clone());
+                    if ma.form == Form::Binary && mb.form == Form::Binary && !ma.data.is_empty() {
+                        if let Ok(it) = rlp::parse_item(&ma.data) {
+                            if it.total_len == ma.data.len() {
+                                let decs = self.decs.clone();
+                                let mut buf = ma.data.clone();
+                                buf.extend_from_slice(&mb.data);
+                                self.cx.stat("enum:cut-sweeps");
+                                for cut in ma.data.len() + 1..=buf.len() {
+                                    self.cx.stat("fault:frame:torn-tail");
+                                    wire::judge_binary(&buf[..cut], &ma.how, &decs, &mut self.cx);
+                                }
+                            }
+                        }
+                    }
+                }
+            }
             Event::Stream { msgs, suffix, list } => {
                 let mut items: Vec<Vec<u8>> = Vec::new();
                 for m in msgs.iter().take(8) {
@@ -791,6 +841,34 @@ impl World {
                         let decs = self.decs.clone();
                         let outs = wire::judge_binary(&enc, "honest", &decs, &mut self.cx);
                         self.update_tables(&outs);
+                    }
+                }
+                // bounded liveness: one fault-free gossip round after the last fault, every live node
+                // knows the newest record of every live peer whose scheme it can read
+                for i in 0..self.nodes.len() {
+                    if self.crashed[i] {
+                        continue;
+                    }
+                    let dec = self.nodes[i].backend().dec();
+                    for j in 0..self.nodes.len() {
+                        if self.crashed[j] || self.nodes[j].ended() {
+                            continue;
+                        }
+                        let Some(v) = self.nodes[j].last_view().cloned() else { continue };
+                        if !wire::ref_accepts(&v.encoded, dec.scheme(), dec.judge_lib()) {
+                            continue;
+                        }
+                        self.cx.stat("tail:table-entries-expected");
+                        match self.tables[i].get(&v.node_id) {
+                            Some((seq, enc)) if *seq > v.seq || (*seq == v.seq && *enc == v.encoded) => {}
+                            Some((seq, _)) if *seq == v.seq => {
+                                // another record of the same node at the same sequence number was seen
+                                // first (a re-signing): the table keeps the first, which is allowed
+                                self.cx.stat("tail:same-seq-other-signature");
+                            }
+                            _ => self.cx.push(viol("C11", format!("C11/no-progress-after-faults-stopped/{}", dec.name()),
+                                format!("node {i} does not hold the newest record (seq {}) of node {j} one fault-free round after the last fault", v.seq))),
+                        }
                     }
                 }
                 for i in 0..self.nodes.len() {
